@@ -13,7 +13,8 @@ from gen import tracefs as T
 ID = "C04"
 LEVEL = "proof"
 LEAN_IMPORTS = ["WM.Props.C04"]
-THEOREMS = ["WM.C04.mutex", "WM.C04.generation", "WM.C04.no_lost_update", "WM.C04.lock_released"]
+THEOREMS = ["WM.C04.mutex", "WM.C04.generation", "WM.C04.no_lost_update", "WM.C04.lock_released",
+            "WM.C04.trace_is_script", "WM.C04.failed_acquire_inert", "WM.C04.script_runs_to_release"]
 PARTIAL = {}
 RULE = ("(a) storage traces of real writer lifetimes (SegmentWriter commit/cancel/failing with-block, AsyncWriter both "
         "paths, BufferedWriter restarts, MpWriter in thorough) mapped to steps and checked by the Lean LockDiscipline; "
@@ -177,6 +178,9 @@ def _history_job(job):
         zcount = [0]
         zall = []
         for ti in range(job["ntxn"]):
+            if job.get("deadline") and time.time() > job["deadline"] and ti > 0:
+                out["stopped"] = True
+                break
             txn = T.gen_txn(rng, state)
             probes = []
             zdone = []
@@ -299,7 +303,17 @@ def _frontend_job(job):
             aw.add_document(**T.gen_doc(rng, 1))
             probe("held")
             tr.actor = "a"
-            aw.commit()
+            how = rng.choice(["plain", "clear", "optimize", "nomerge"])
+            out["commit_how"] = how
+            if how == "clear":
+                aw.commit(mergetype=writing.CLEAR)
+                expected.clear()
+            elif how == "optimize":
+                aw.commit(optimize=True)
+            elif how == "nomerge":
+                aw.commit(merge=False)
+            else:
+                aw.commit()
             expected.add("k1")
             probe("free")
         elif kind == "async-buffered":
@@ -316,14 +330,28 @@ def _frontend_job(job):
             aw = TAsync(ix, delay=0.01)
             aw.add_document(**T.gen_doc(rng, 1))
             aw.delete_by_term("k", u"k0")
-            aw.commit()          # starts the polling thread
+            # the deferred commit must be replayed with the arguments it was called with
+            how = rng.choice(["plain", "clear", "clear", "optimize", "nomerge"])
+            out["commit_how"] = how
+            if how == "clear":
+                aw.commit(mergetype=writing.CLEAR)      # starts the polling thread
+            elif how == "optimize":
+                aw.commit(optimize=True)
+            elif how == "nomerge":
+                aw.commit(merge=False)
+            else:
+                aw.commit()
             time.sleep(0.05)
             tr.actor = "w"
-            w1.commit()
+            w1.commit(merge=False)
             aw.join(10)
             out["async_alive"] = aw.is_alive()
-            expected |= {"k1", "k2"}
-            expected.discard("k0")
+            if how == "clear":
+                expected.clear()
+                expected.add("k1")
+            else:
+                expected |= {"k1", "k2"}
+                expected.discard("k0")
             probe("free")
         elif kind == "buffered":
             tr.actor = "b"
@@ -358,6 +386,107 @@ def _frontend_job(job):
                 tr.actor = "w"
             expected.add("k1")
             probe("free")
+        elif kind == "async-late":
+            # AsyncWriter created while the index is locked (so it buffers), the lock is released
+            # *before* its commit(): the buffered adds / deletes must still be applied
+            tr.actor = "w"
+            w1 = ix.writer()
+            w1.add_document(**T.gen_doc(rng, 2))
+            tr.actor = "a"
+            tracer = tr
+
+            class TAsync2(writing.AsyncWriter):
+                def run(self):
+                    tracer.actor = "a"
+                    writing.AsyncWriter.run(self)
+            aw = TAsync2(ix, delay=0.01)
+            aw.add_document(**T.gen_doc(rng, 1))
+            aw.add_document(**T.gen_doc(rng, 3))
+            aw.delete_by_term("k", u"k0")
+            tr.actor = "w"
+            if rng.random() < 0.5:
+                w1.commit(merge=False)
+                expected.add("k2")
+            else:
+                w1.cancel()
+            tr.actor = "a"
+            aw.commit()
+            if aw.ident is not None:
+                aw.join(10)
+            out["async_alive"] = aw.is_alive()
+            expected |= {"k1", "k3"}
+            expected.discard("k0")
+            probe("free")
+        elif kind == "fork-child":
+            # a child process forked while the writer is open inherits the lock file descriptor; it
+            # never asked for the lock, so commit() / cancel() must still free the index
+            tr.actor = "w"
+            w = ix.writer()
+            w.add_document(**T.gen_doc(rng, 1))
+            rfd, wfd = os.pipe()
+            pid = os.fork()
+            if pid == 0:
+                try:
+                    os.close(wfd)
+                    os.read(rfd, 1)
+                finally:
+                    os._exit(0)
+            os.close(rfd)
+            try:
+                if rng.random() < 0.6:
+                    w.commit()
+                    expected.add("k1")
+                else:
+                    w.cancel()
+                probe("free")
+                # and a complete second lifetime while the child is still alive
+                tr.actor = "w"
+                from whoosh.index import LockError
+                try:
+                    w3 = ix.writer(timeout=1.0, delay=0.02)
+                except LockError:
+                    out["after_fork"] = "LockError"
+                else:
+                    w3.add_document(**T.gen_doc(rng, 4))
+                    w3.commit()
+                    expected.add("k4")
+                    probe("free")
+            finally:
+                try:
+                    os.write(wfd, b"x")
+                    os.close(wfd)
+                except OSError:
+                    pass
+                os.waitpid(pid, 0)
+        elif kind == "waiting-writer":
+            # writer B is constructed (with a timeout) while A holds the lock and gets it when A
+            # has committed: B must build on A's commit
+            from whoosh.index import LockError
+            tr.actor = "w"
+            w1 = ix.writer()
+            w1.add_document(**T.gen_doc(rng, 1))
+            box = {}
+            tracer = tr
+
+            def waiter():
+                tracer.actor = "b"
+                try:
+                    w2 = ix.writer(timeout=20.0, delay=0.01)
+                    w2.add_document(**T.gen_doc(rng, 2))
+                    w2.commit(merge=False)
+                    box["ok"] = True
+                except Exception as e:  # noqa
+                    box["err"] = "%s: %s" % (T.errname(e), str(e)[:120])
+            th = threading.Thread(target=waiter, daemon=True)
+            th.start()
+            time.sleep(0.05 + rng.random() * 0.05)
+            tr.actor = "w"
+            w1.commit(merge=False)
+            th.join(25)
+            out["waiter"] = box.get("err") or ("hung" if th.is_alive() else "ok")
+            expected |= {"k1", "k2"}
+            out["want_gen"] = 3
+            probe("free")
         elif kind == "mp":
             tr.actor = "m"
             mw = ix.writer(procs=2, batchsize=2)
@@ -373,6 +502,7 @@ def _frontend_job(job):
         out["keys"] = sorted(sf["k"] for sf in r.all_stored_fields())
         r.close()
         out["expected"] = sorted(expected)
+        out["nsegments"] = len(ix._segments())
         out["events"] = list(tr.events)
         out["second"] = second
         out["gen"] = ix.latest_generation()
@@ -390,6 +520,8 @@ def schedule_job(job):
 
 def _schedule_job(job):
     """Random sequential interleaving of the API steps of up to 4 writers on one index."""
+    if job.get("deadline") and time.time() > job["deadline"]:
+        return {"seed": job["seed"], "ram": job["ram"], "skipped": True}
     from whoosh import index
     from whoosh.index import LockError
     rng = random.Random(job["seed"])
@@ -664,8 +796,26 @@ def _judge_frontends(ctx, results, lines, meta):
             continue
         ctx.stat("frontend:" + r["kind"])
         ctx.case(("frontend", r["kind"], case["storage"], tuple(r["expected"])), nontrivial=True)
+        if r.get("after_fork"):
+            ctx.violation("lock-not-released-while-a-forked-child-is-alive", case, "a new writer", r["after_fork"],
+                          "a child forked while the writer was open inherited the lock descriptor; after commit()/"
+                          "cancel() the index is still locked for everybody else")
+        if r.get("waiter", "ok") != "ok":
+            ctx.violation("waiting-writer-fails-after-the-holder-commits", case, "commits on top of the first writer",
+                          r["waiter"], "a writer that waited for the lock (timeout > 0) could not commit after the "
+                                       "holder committed")
+        if r.get("want_gen") is not None and r["gen"] != r["want_gen"] and r.get("waiter") == "ok":
+            ctx.violation("generation-step:waiting-writer", case, r["want_gen"], r["gen"])
+        if r.get("commit_how"):
+            ctx.stat("frontend:%s:commit-%s" % (r["kind"], r["commit_how"]))
+            case["commit"] = r["commit_how"]
         if r["keys"] != r["expected"]:
             ctx.violation("front-end-lost-or-extra-documents:" + r["kind"], case, r["expected"], r["keys"])
+        elif r.get("commit_how") == "optimize" and r["nsegments"] != 1:
+            ctx.violation("front-end-commit-arguments-ignored:%s:optimize" % r["kind"], case, 1, r["nsegments"],
+                          "commit(optimize=True) through the front-end left more than one segment")
+        elif r.get("commit_how") == "nomerge" and r["kind"] == "async-buffered" and r["nsegments"] != 3:
+            ctx.violation("front-end-commit-arguments-ignored:%s:merge=False" % r["kind"], case, 3, r["nsegments"])
         if r.get("async_alive"):
             ctx.violation("AsyncWriter-thread-never-finishes", case, "joins", "alive")
         for tag, res in r["second"]:
@@ -692,6 +842,9 @@ def _judge_discipline(ctx, lines, meta):
 
 def _judge_schedules(ctx, results):
     lines, keep = [], []
+    ctx.stat("schedule:planned", len(results))
+    results = [r for r in results if not r.get("skipped")]
+    ctx.stat("schedule:done", len(results))
     for r in results:
         if r.get("fatal"):
             ctx.violation("harness-step-raises", {"seed": r["seed"]}, "runs", r["fatal"], r["tb"])
@@ -817,25 +970,31 @@ def run(ctx):
 
 
 def _main(ctx, scratch, stream, njobs, ntxn, stride, seeds=None):
+    # wall-clock bounds (boosted budgets / loaded machine => fewer cases, not a longer run)
+    quick = ctx.tier == "quick"
+    dl_hist = time.time() + (30 if quick else 300)
+    dl_sched = dl_hist + (20 if quick else 200)
     jobs = [{"seed": "%s:%s:%s:%d" % (ID, ctx.seed, stream, i), "ram": bool(i % 2), "ntxn": ntxn, "stride": stride,
-             "scratch": scratch} for i in range(njobs)]
+             "scratch": scratch, "deadline": dl_hist} for i in range(njobs)]
     if seeds is not None:
         jobs = seeds
     jobs = [j for j in jobs if j["ram"] not in BLOCKED_STORAGES]
     fjobs = []
-    kinds = ["async-direct", "async-buffered", "buffered", "with-exception", "with-ok"]
+    kinds = ["async-direct", "async-buffered", "async-late", "buffered", "with-exception", "with-ok",
+             "waiting-writer", "fork-child"]
     if ctx.tier == "thorough":
         kinds.append("mp")
     if seeds is None:
         for rep in range(ctx.budget(4, 12)):
             for kind in kinds:
                 for ram in (False, True):
-                    if kind == "mp" and ram:
+                    if kind in ("mp", "fork-child") and ram:
                         continue
                     fjobs.append({"seed": "%s:%s:%s:f:%s:%d:%d" % (ID, ctx.seed, stream, kind, rep, ram), "kind": kind,
                                   "ram": ram, "scratch": scratch})
     sjobs = [] if seeds is not None else [
-        {"seed": "%s:%s:%s:s:%d" % (ID, ctx.seed, stream, i), "ram": bool(i % 2), "scratch": scratch}
+        {"seed": "%s:%s:%s:s:%d" % (ID, ctx.seed, stream, i), "ram": bool(i % 2), "scratch": scratch,
+         "deadline": dl_sched}
         for i in range(ctx.budget(800, 8000))]
     fjobs = [j for j in fjobs if j["ram"] not in BLOCKED_STORAGES]
     sjobs = [j for j in sjobs if j["ram"] not in BLOCKED_STORAGES]
@@ -844,6 +1003,10 @@ def _main(ctx, scratch, stream, njobs, ntxn, stride, seeds=None):
     fres = ctx.pmap(frontend_job, [j for j in fjobs if j["kind"] != "mp"]) + \
         [frontend_job(j) for j in fjobs if j["kind"] == "mp"]
     sres = ctx.pmap(schedule_job, sjobs, chunksize=4)
+    ctx.stat("%s:transactions-done" % stream, sum(len(h["txns"]) for h in hres))
+    cut = sum(1 for h in hres if h.get("stopped"))
+    if cut:
+        ctx.note("%s stream: wall-clock bound reached, %d histories cut short" % (stream, cut))
     lines, meta = _judge_histories(ctx, hres)
     _judge_frontends(ctx, fres, lines, meta)
     _judge_discipline(ctx, lines, meta)
